@@ -444,9 +444,49 @@ func sentinelGuards(c *Ctx, rule string, fn *ssa.Function, sentinel string, targ
 			}
 		}
 	}
+	// rejections performed by a same-package helper whose error is checked before the target
+	for _, h := range rejectionHelpers(c, fn, target) {
+		hei := ErrorResultIndex(h)
+		for _, r := range Returns(h) {
+			u, ok := RetVal(r, hei).(*ssa.UnOp)
+			if !ok || u.Op != token.MUL {
+				continue
+			}
+			if g, ok := u.X.(*ssa.Global); !ok || g.Name() != sentinel {
+				continue
+			}
+			for _, p := range r.Block().Preds {
+				if ifi := ifOf(p); ifi != nil {
+					n++
+					c.Pass(rule, key(fn, fmt.Sprintf("%s<-reject(%s)[%d]", tDesc, sentinel, n)), ifi.Pos(), 2, "the %s rejection in %s guards %s (the helper's error is tested before it)", sentinel, FuncName(h), tDesc)
+				}
+			}
+		}
+	}
 	if n < min {
 		c.Fail(rule, key(fn, "has:reject("+sentinel+")"), fn.Pos(), 1, "expected at least %d guard(s) returning %s before %s, found %d", min, sentinel, tDesc, n)
 	}
+}
+
+// rejectionHelpers: same-package callees of fn with an error result such that target lies
+// behind the nil edge of that result (a failed check in the helper keeps fn from reaching target).
+func rejectionHelpers(c *Ctx, fn *ssa.Function, target ssa.Instruction) []*ssa.Function {
+	var out []*ssa.Function
+	AllInstrs(fn, false, func(in ssa.Instruction) {
+		ci, ok := in.(ssa.CallInstruction)
+		if !ok || in == target {
+			return
+		}
+		h := StaticFn(ci.Common())
+		if h == nil || h.Blocks == nil || h == fn || FuncPkgPath(h) != FuncPkgPath(fn) || ErrorResultIndex(h) < 0 {
+			return
+		}
+		if succOKq(fn, []ssa.CallInstruction{ci}, target) {
+			c.Touch(h)
+			out = append(out, h)
+		}
+	})
+	return out
 }
 
 // chainDominates handles `a || b` lowering: the pass edge of the first test leads to
